@@ -1,6 +1,7 @@
 package hashbidimap
 
 import (
+	"github.com/emirpasic/gods/v2/containers"
 	"github.com/emirpasic/gods/v2/maps"
 	"github.com/emirpasic/gods/v2/maps/hashmap"
 	v "github.com/emirpasic/gods/v2/zzvsup"
@@ -24,4 +25,11 @@ func VHMapStep() {
 	keys, vals := maps.VPairs(true)
 	m := VGMapOf(keys, vals)
 	maps.VMapStep(m, keys, vals, maps.VKind{Bidi: true, GetKey: m.GetKey, Inv: func() { VInv(m) }})
+}
+
+// VHSnap: returned slices are snapshots, argument slices are copied, GetSortedValues leaves the container alone (C16).
+func VHSnap() {
+	ks, xs := maps.VPairs(true)
+	c := VGMapOf(ks, xs)
+	containers.VSnapStep(containers.VSnap{C: c, Keys: c.Keys, Mutate: []func(){c.Clear, func() { c.Put(v.Int("mk"), v.Int("mv")) }, func() { c.Remove(v.Int("mk")) }}, Hash: true})
 }
